@@ -698,3 +698,66 @@ pub fn gen_soup(t: &mut Tape, cfg: &ProgCfg) -> Vec<MStmt> {
     }
     prog
 }
+
+/// Free-form statement list for the parser: every statement is individually valid
+/// (operands fit their fields) but the program need not be assemblable.
+pub fn gen_freeform(t: &mut Tape, cfg: &ProgCfg, unicode_labels: bool) -> Vec<MStmt> {
+    let n = match t.weighted(&[1, 4, 6, 3]) {
+        0 => 0,
+        1 => 1 + t.pick(4),
+        2 => 5 + t.pick(10),
+        _ => 15 + t.pick(25),
+    };
+    let npool = 2 + t.pick(6);
+    let mut pool = gen_label_pool(t, npool);
+    if unicode_labels {
+        const SUFFIX: &[&str] = &["é", "ß", "日本", "ı", "Ω9", "_ñ"];
+        for l in pool.iter_mut() {
+            if t.chance(1, 4) {
+                let sfx: &str = SUFFIX[t.pick(SUFFIX.len())];
+                // whether Unicode case folding can turn an identifier into a keyword ("rtı" -> RTI) is
+                // not specified by the grammar; such names are not generated
+                let cand = format!("{l}{sfx}");
+                if !KEYWORDS.contains(&cand.to_uppercase().as_str()) {
+                    *l = cand;
+                }
+            }
+        }
+    }
+    let mut prog = vec![];
+    for _ in 0..n {
+        let mut labels = vec![];
+        while labels.len() < 3 && t.chance(1, 4) {
+            labels.push(pick_flipped_any(t, &pool));
+        }
+        let kind = match t.pick(12) {
+            0 => MKind::Orig(match t.pick(4) {
+                0 => 0x3000,
+                1 => 0,
+                2 => 0xFFFF,
+                _ => t.range(0, 0xFFFF) as i32,
+            }),
+            1 => MKind::End,
+            2 => MKind::External(pick_flipped_any(t, &pool)),
+            _ => match gen_proto(t, cfg) {
+                Proto::Done(k) => k,
+                Proto::FillLabel => MKind::Fill(Opnd::Lab(pick_flipped_any(t, &pool))),
+                Proto::PcLabel(mut k) => {
+                    set_label_operand(&mut k, pick_flipped_any(t, &pool));
+                    k
+                }
+            },
+        };
+        prog.push(MStmt { labels, kind });
+    }
+    prog
+}
+
+fn pick_flipped_any(t: &mut Tape, names: &[String]) -> String {
+    let l = names[t.pick(names.len())].clone();
+    if l.is_ascii() {
+        flip_case(t, &l)
+    } else {
+        l
+    }
+}
